@@ -79,6 +79,95 @@ func scenForgeSess(r *Run) {
 			}
 			pl := append([]byte(nil), payload...)
 			fec := fecOf(src)
+			seal := func(pl []byte, k int) []byte {
+				nonce := make([]byte, 16)
+				binary.LittleEndian.PutUint64(nonce, splitmixFrom(t, fs))
+				binary.LittleEndian.PutUint64(nonce[8:], uint64(i)<<8+uint64(k)+1)
+				return w.Ref.Seal(nonce, pl)
+			}
+			noJudge := func() {
+				// from now on this session's streams are no longer judged
+				for _, ep := range w.Eps {
+					ep.Out.NoCheck = true
+					if ep.In != nil {
+						ep.In.NoCheck = true
+					}
+				}
+			}
+			if fec && len(pl) >= 8+24 && t.Chance(fs, 250) {
+				// A Reed-Solomon-consistent forged group: d-1 data packets and one
+				// parity packet are injected, chosen so that the decoder RECONSTRUCTS
+				// a packet of the forger's choosing (lying size field, forged header).
+				fc := w.connFEC[src.id]
+				d, par := fc[0], fc[1]
+				ss := uint32(d + par)
+				grp := binary.LittleEndian.Uint32(pl)/ss + 1 + uint32(t.Choose(fs, 3))
+				bodies := make([][]byte, d+par)
+				missing := t.Choose(fs, d)
+				maxlen := 0
+				for k := 0; k < d; k++ {
+					var b []byte
+					switch {
+					case k == missing:
+						b = append([]byte(nil), pl[6:]...)
+						if t.Chance(fs, 500) && len(b) >= 2+24 {
+							h := b[2:]
+							binary.LittleEndian.PutUint32(h[12:], forgeU32(t, fs, binary.LittleEndian.Uint32(h[12:]), 300))
+							binary.LittleEndian.PutUint32(h[20:], forgeU32(t, fs, binary.LittleEndian.Uint32(h[20:]), 64))
+						}
+						binary.LittleEndian.PutUint16(b, uint16(Pick(t, fs, []int{0, 1, 2, 3, 5, 25, 26, len(b) - 1, len(b), len(b) + 1, len(b) + 300, 65535})))
+					case t.Chance(fs, 500) && to != w.LConn:
+						// zeros: no segment at all (not at the listener, which reads a
+						// conversation id out of every data packet and would replace the session)
+						b = make([]byte, 2+t.Choose(fs, 64))
+					default:
+						b = append([]byte(nil), pl[6:]...)
+					}
+					if len(b) > maxlen {
+						maxlen = len(b)
+					}
+					bodies[k] = b
+				}
+				if t.Chance(fs, 300) {
+					maxlen += t.Choose(fs, 200) // the reconstructed packet is longer than its size field admits
+				}
+				sh := make([][]byte, d+par)
+				for k := range sh {
+					sh[k] = make([]byte, maxlen)
+					copy(sh[k], bodies[k])
+				}
+				if err := rsFor(d, par).Encode(sh); err != nil {
+					panic("harness: rs encode: " + err.Error())
+				}
+				pk := d + t.Choose(fs, par)
+				var out [][]byte
+				for k := 0; k < d+par; k++ {
+					if k == missing || (k >= d && k != pk) {
+						continue
+					}
+					body := sh[k]
+					typ := 0xf2
+					if k < d {
+						body, typ = bodies[k], 0xf1
+					}
+					fp := make([]byte, 6+len(body))
+					binary.LittleEndian.PutUint32(fp, grp*ss+uint32(k))
+					binary.LittleEndian.PutUint16(fp[4:], uint16(typ))
+					copy(fp[6:], body)
+					dg := seal(fp, k)
+					if len(dg) > 1500 {
+						return
+					}
+					out = append(out, dg)
+				}
+				noJudge()
+				s.L.Logf("inject a Reed-Solomon-consistent forged group %d (%d+%d, %d datagrams, reconstructs position %d with size field %d of %d) into %s as from %s", grp, d, par, len(out), missing, binary.LittleEndian.Uint16(bodies[missing]), maxlen, to.addrStr, from)
+				s.Stats.Fault("forged:rs-consistent-group")
+				for _, dg := range out {
+					w.Net.Deliver(to.addrStr, from, dg, "forge")
+				}
+				return
+			}
 			off := 0
 			what := ""
 			if fec && len(pl) >= 8 {
@@ -146,20 +235,11 @@ func scenForgeSess(r *Run) {
 			if what == "" {
 				return
 			}
-			nonce := make([]byte, 16)
-			binary.LittleEndian.PutUint64(nonce, splitmixFrom(t, fs))
-			binary.LittleEndian.PutUint64(nonce[8:], uint64(i)+1)
-			d := w.Ref.Seal(nonce, pl)
+			d := seal(pl, 255)
 			if len(d) > 1500 {
 				return
 			}
-			// from now on this session's streams are no longer judged
-			for _, ep := range w.Eps {
-				ep.Out.NoCheck = true
-				if ep.In != nil {
-					ep.In.NoCheck = true
-				}
-			}
+			noJudge()
 			s.L.Logf("inject content-valid forgery (%s, %d bytes) into %s as from %s", what, len(d), to.addrStr, from)
 			s.Stats.Fault("forged:" + what)
 			w.Net.Deliver(to.addrStr, from, d, "forge")
